@@ -1,6 +1,7 @@
 package checks
 
 import (
+	"crypto/tls"
 	"bytes"
 	"context"
 	"encoding/json"
@@ -41,6 +42,10 @@ type c13Scn struct {
 	Debug bool `json:"debug,omitempty"`
 	// Quoted: every envelope address has a local part that has to be transmitted as quoted-string ("m 3 x"@…)
 	Quoted bool `json:"quoted,omitempty"`
+	// TLS: 0 no TLS; 1 every connection negotiates STARTTLS (real crypto/tls handshake) with the tls.Config the Client
+	// derives itself; 2 the same with ONE caller-supplied tls.Config that does not name the server (InsecureSkipVerify)
+	// and is shared by all connections of the Client
+	TLS int `json:"tls,omitempty"`
 }
 
 type c13Case struct {
@@ -49,25 +54,26 @@ type c13Case struct {
 }
 
 var c13Scenarios = []c13Scn{
-	{"2xSend(1)", 2, 0, 1, "", 0, false, false},
-	{"2xSend(2)", 2, 0, 2, "", 0, false, false},
-	{"3xSend(1)", 3, 0, 1, "", 0, false, false},
-	{"2xDialAndSend(1)", 0, 2, 1, "", 0, false, false},
-	{"Send+DialAndSend", 1, 1, 1, "", 0, false, false},
-	{"2xSend+DialAndSend", 2, 1, 1, "", 0, false, false},
-	{"2xDialAndSend(1)+LOGIN", 0, 2, 1, "LOGIN", 0, false, false},
-	{"2xDialAndSend(1)+SCRAM", 0, 2, 1, "SCRAM-SHA-256", 0, false, false},
-	{"Send+DialAndSend+AUTODISCOVER", 1, 1, 1, "AUTODISCOVER", 0, false, false},
-	{"2xSend(1)/rcpt-refused", 2, 0, 1, "", 1, false, false},
-	{"2xSend(2)/data-refused", 2, 0, 2, "", 3, false, false},
-	{"Send+DialAndSend/dialer-rcpt-refused", 1, 1, 1, "", 1, false, false},
-	{"Send+DialAndSend/dialer-rcpt-refused+rset-fails", 1, 1, 1, "", 2, false, false},
-	{"Send+DialAndSend/dialer-data-refused", 1, 1, 1, "", 3, false, false},
-	{"2xDialAndSend(1)/rcpt-refused+rset-fails", 0, 2, 1, "", 2, false, false},
-	{"Send+DialAndSend+debuglog", 1, 1, 1, "", 0, true, false},
-	{"2xDialAndSend(1)+debuglog", 0, 2, 1, "", 0, true, false},
-	{"2xDialAndSend(1)+quoted-local-parts", 0, 2, 1, "", 0, false, true},
-	{"Send+DialAndSend+quoted-local-parts", 1, 1, 1, "", 0, false, true},
+	{"2xSend(1)", 2, 0, 1, "", 0, false, false, 0},
+	{"2xSend(2)", 2, 0, 2, "", 0, false, false, 0},
+	{"3xSend(1)", 3, 0, 1, "", 0, false, false, 0},
+	{"2xDialAndSend(1)", 0, 2, 1, "", 0, false, false, 0},
+	{"Send+DialAndSend", 1, 1, 1, "", 0, false, false, 0},
+	{"2xSend+DialAndSend", 2, 1, 1, "", 0, false, false, 0},
+	{"2xDialAndSend(1)+LOGIN", 0, 2, 1, "LOGIN", 0, false, false, 0},
+	{"2xDialAndSend(1)+SCRAM", 0, 2, 1, "SCRAM-SHA-256", 0, false, false, 0},
+	{"Send+DialAndSend+AUTODISCOVER", 1, 1, 1, "AUTODISCOVER", 0, false, false, 0},
+	{"2xSend(1)/rcpt-refused", 2, 0, 1, "", 1, false, false, 0},
+	{"2xSend(2)/data-refused", 2, 0, 2, "", 3, false, false, 0},
+	{"Send+DialAndSend/dialer-rcpt-refused", 1, 1, 1, "", 1, false, false, 0},
+	{"Send+DialAndSend/dialer-rcpt-refused+rset-fails", 1, 1, 1, "", 2, false, false, 0},
+	{"Send+DialAndSend/dialer-data-refused", 1, 1, 1, "", 3, false, false, 0},
+	{"2xDialAndSend(1)/rcpt-refused+rset-fails", 0, 2, 1, "", 2, false, false, 0},
+	{"Send+DialAndSend+debuglog", 1, 1, 1, "", 0, true, false, 0},
+	{"2xDialAndSend(1)+debuglog", 0, 2, 1, "", 0, true, false, 0},
+	{"2xDialAndSend(1)+quoted-local-parts", 0, 2, 1, "", 0, false, true, 0},
+	{"Send+DialAndSend+quoted-local-parts", 1, 1, 1, "", 0, false, true, 0},
+	{"2xDialAndSend(1)+starttls(caller's config without server name)", 0, 2, 1, "", 0, false, false, 2},
 }
 
 var c13Blocked int32
@@ -93,9 +99,15 @@ func c13Build(r *vf.Run, scn c13Scn, hook func(string)) *c13World {
 		if scn.Auth != "" {
 			caps = append(caps, "AUTH LOGIN SCRAM-SHA-256 CRAM-MD5")
 		}
+		if scn.TLS > 0 {
+			caps = append(caps, "STARTTLS")
+		}
 		sess := &refsmtp.Session{Host: hx.Host, Caps: caps}
 		c := refsmtp.NewConn(sess)
 		c.Hook = hook
+		if scn.TLS > 0 {
+			c.TLSConfig = hx.ServerTLS(hx.Mat().Good)
+		}
 		if scn.Fault > 0 {
 			inTarget, rsetFails := false, false
 			sess.Script = func(s *refsmtp.Session, ev *refsmtp.Event, def refsmtp.Action) refsmtp.Action {
@@ -127,6 +139,12 @@ func c13Build(r *vf.Run, scn c13Scn, hook func(string)) *c13World {
 		return c
 	}}
 	opts := []mail.Option{mail.WithDialContextFunc(w.rig.Dial), mail.WithHELO("client.example.test"), mail.WithTLSPolicy(mail.NoTLS)}
+	switch scn.TLS {
+	case 1:
+		opts = append(opts, mail.WithTLSPolicy(mail.TLSMandatory), mail.WithTLSConfig(hx.ClientTLS(hx.Host)))
+	case 2:
+		opts = append(opts, mail.WithTLSPolicy(mail.TLSMandatory), mail.WithTLSConfig(&tls.Config{InsecureSkipVerify: true, MinVersion: tls.VersionTLS12}))
+	}
 	if scn.Debug {
 		opts = append(opts, mail.WithDebugLog(), mail.WithLogger(log.New(io.Discard, log.LevelDebug)))
 	}
@@ -292,10 +310,12 @@ func c13RacePass(iter int) int {
 	rng := rand.New(rand.NewSource(int64(iter)))
 	var rmu sync.Mutex
 	for it := 0; it < iter; it++ {
-		for _, scn := range []c13Scn{{"2", 2, 0, 1, "", 0, false, false}, {"8", 6, 2, 1, "", 0, false, false}, {"64", 48, 16, 1, "", 0, false, false}, {"3x2", 3, 0, 2, "", 0, false, false}, {"dial", 0, 4, 1, "", 0, false, false},
-			{"dial+login", 0, 6, 1, "LOGIN", 0, false, false}, {"mixed+scram", 3, 5, 1, "SCRAM-SHA-256", 0, false, false}, {"mixed+auto", 2, 6, 1, "AUTODISCOVER", 0, false, false},
-			{"mixed+debuglog", 4, 4, 1, "", 0, true, false}, {"dial+login+debuglog", 0, 6, 1, "LOGIN", 0, true, false},
-			{"mixed+quoted-local-parts", 3, 6, 1, "", 0, false, true}} {
+		for _, scn := range []c13Scn{{"2", 2, 0, 1, "", 0, false, false, 0}, {"8", 6, 2, 1, "", 0, false, false, 0}, {"64", 48, 16, 1, "", 0, false, false, 0}, {"3x2", 3, 0, 2, "", 0, false, false, 0}, {"dial", 0, 4, 1, "", 0, false, false, 0},
+			{"dial+login", 0, 6, 1, "LOGIN", 0, false, false, 0}, {"mixed+scram", 3, 5, 1, "SCRAM-SHA-256", 0, false, false, 0}, {"mixed+auto", 2, 6, 1, "AUTODISCOVER", 0, false, false, 0},
+			{"mixed+debuglog", 4, 4, 1, "", 0, true, false, 0}, {"dial+login+debuglog", 0, 6, 1, "LOGIN", 0, true, false, 0},
+			{"mixed+quoted-local-parts", 3, 6, 1, "", 0, false, true, 0},
+			{"dial+starttls", 0, 6, 1, "", 0, false, false, 1}, {"dial+starttls(caller's config without server name)", 0, 6, 1, "", 0, false, false, 2},
+			{"mixed+starttls+login(caller's config without server name)", 2, 4, 1, "LOGIN", 0, false, false, 2}} {
 			if scn.Senders+scn.Dialers > 16 && it%4 != 0 {
 				continue
 			}
@@ -342,7 +362,7 @@ func init() {
 	vf.Register(&vf.Check{
 		ID: "C13", Title: "concurrent use of one Client is safe",
 		Run: func(r *vf.Run) {
-			r.SetRule("scenarios {2×Send(1 msg), 2×Send(2 msgs), 3×Send(1), 2×DialAndSend, Send+DialAndSend, 2×Send+DialAndSend, 2×DialAndSend with LOGIN / SCRAM authentication, Send+DialAndSend with auto-discovered authentication; scenarios with debug logging through the library's own logger, scenarios whose envelope addresses need quoting, and scenarios in which the server refuses one message (a recipient with or without a failing clean-up RSET, or DATA) of one thread while the other threads' messages must be unaffected} on one Client; ALL interleavings at visible operations (every Lock/RLock of go-mail's mutexes through the sync shim, every connection Read/Write/Close) up to the preemption bound, under a cooperative scheduler that models Go's RWMutex (a waiting writer blocks new readers); oracle per schedule: protocol monitor on every connection, commit log = every message the server did not refuse exactly once with its own envelope and complete content (a refused one never), exactly the calls without a refused message return nil, no deadlock; plus a separate free-running pass of the same bodies under the Go race detector (2..64 goroutines, jittered I/O) — that pass samples schedules; distinct by (scenario, schedule)")
+			r.SetRule("scenarios {2×Send(1 msg), 2×Send(2 msgs), 3×Send(1), 2×DialAndSend, Send+DialAndSend, 2×Send+DialAndSend, 2×DialAndSend with LOGIN / SCRAM authentication, Send+DialAndSend with auto-discovered authentication; scenarios with debug logging through the library's own logger, scenarios whose envelope addresses need quoting, scenarios in which every connection negotiates STARTTLS (real crypto/tls handshakes) with one caller-supplied tls.Config that does not name the server, and scenarios in which the server refuses one message (a recipient with or without a failing clean-up RSET, or DATA) of one thread while the other threads' messages must be unaffected} on one Client; ALL interleavings at visible operations (every Lock/RLock of go-mail's mutexes through the sync shim, every connection Read/Write/Close) up to the preemption bound, under a cooperative scheduler that models Go's RWMutex (a waiting writer blocks new readers); oracle per schedule: protocol monitor on every connection, commit log = every message the server did not refuse exactly once with its own envelope and complete content (a refused one never), exactly the calls without a refused message return nil, no deadlock; plus a separate free-running pass of the same bodies under the Go race detector (2..64 goroutines, jittered I/O) — that pass samples schedules; distinct by (scenario, schedule)")
 			r.Assume("releases are not preemption points (sound for data-race-free code; races are the job of the separate -race pass)", "the race pass is sampling, not exhaustive: the 'no data race under any schedule' clause is only decided for the schedules it happens to run")
 			bound := 2
 			if r.Thorough {
